@@ -200,24 +200,24 @@ def roundUpGo (r start : Nat) (buf : List Nat) : Nat → List Nat × Nat × Bool
       (buf.set (start + idx) (digitToCharConst (charToValidDigitConst c r + 1) r), idx + 1, false)
     else roundUpGo r start buf idx
 
-/-- `truncate_and_round(buffer, start, end, radix, options)`: new buffer, digit count, carried -/
+/-- `truncate_and_round(buffer, start, end, radix, options)`: new buffer, digit count, carried
+(as of /repo 2de23fc: ALL leading zeros of the window are added to `max_digits` before any comparison, so
+`max_digits < digit_count` below and no byte outside `start..end` is read) -/
 def truncateAndRound (r : Nat) (o : WOpts) (buf : List Nat) (start end_ : Nat) : Res (List Nat × Nat × Bool) :=
   let digitCount := end_ - start
   match o.maxDigits with
   | none => .ok (buf, digitCount, false)
   | some mx =>
+    if start > end_ then .panic else                       -- `&buffer[start..end]`
+    let mx := mx + ltrimCount 48 ((buf.drop start).take digitCount)
     if mx ≥ digitCount then .ok (buf, digitCount, false)
     else if o.truncate then .ok (buf, mx, false)
     else
-      let mx := mx + ltrimCount 48 ((buf.drop start).take mx)
-      -- `buffer[start + max_digits - 1]`, `buffer[start + max_digits]`: checked
-      if start + mx ≥ buf.length then .panic else
       let last := buf.getD (start + mx - 1) 0
       let first := buf.getD (start + mx) 0
       let halfway := digitToCharConst (r / 2) r
       if first < halfway then .ok (buf, mx, false)
       else if first > halfway then .ok (roundUpGo r start buf mx)
-      else if start + mx + 1 > end_ then .panic            -- `&buffer[start + max_digits + 1..end]`
       else
         let truncated := (buf.drop (start + mx + 1)).take (end_ - (start + mx + 1))
         if r % 2 = 0 then
@@ -306,9 +306,10 @@ def nonsciText (o : WOpts) (r : Nat) (g : Gen) : Res Text :=
     let buf := if tr.2.2 then 49 :: tr.1 else tr.1
     .ok (nonsciFinish o (buf.take tr.2.1) (g.ints.length + (if tr.2.2 then 1 else 0)))
 
-/-- `sci_exp = initial_cursor - integer_cursor - zero_count - 1` -/
+/-- `sci_exp = initial_cursor - integer_cursor - zero_count - 1` with
+`zero_count = ltrim_char_count(digits, b'0').min(digits.len() - 1)` (/repo f386e72: a zero keeps one digit) -/
 def sciExpOf (g : Gen) : Int :=
-  (g.ints.length : Int) - (ltrimCount 48 (g.ints ++ g.fracs) : Int) - 1
+  (g.ints.length : Int) - (min (ltrimCount 48 (g.ints ++ g.fracs)) ((g.ints ++ g.fracs).length - 1) : Nat) - 1
 
 /-- the `write_float!` choice and the chosen layout -/
 def layoutText (fmt : Format) (feats : Features) (o : WOpts) (r : Nat) (g : Gen) : Res Text :=
